@@ -62,6 +62,8 @@ fn stats_json(s: &verif_rt::ctx::Stats) -> serde_json::Value {
         "par_items": s.par_items,
         "par_batches": s.par_batches,
         "max_pool_threads": s.max_pool_threads,
+        "simulated_tasks_started": s.tasks_started,
+        "helpers_not_started_beyond_24000_tasks": s.tasks_refused,
         "map_ops": s.map_ops,
     })
 }
